@@ -178,7 +178,7 @@ func (m Message) SysEx() []byte {
 	}
 	bf.WriteByte(devID)
 	bf.WriteByte(0x06)
-	bf.WriteByte(byte(m.Command))
+	bf.WriteByte(dataByte(byte(m.Command)))
 	bf.WriteByte(0xF7)
 
 	return bf.Bytes()
@@ -197,7 +197,17 @@ type GoTo struct {
 }
 
 func (g GoTo) SysEx() []byte {
-	return []byte{0xF0, 0x7F, g.DeviceID, 0x06, 0x44, 0x06, 0x01, g.Hour, g.Minute, g.Second, g.Frame, g.SubFrame, 0xF7}
+	return []byte{0xF0, 0x7F, dataByte(g.DeviceID), 0x06, 0x44, 0x06, 0x01,
+		dataByte(g.Hour), dataByte(g.Minute), dataByte(g.Second), dataByte(g.Frame), dataByte(g.SubFrame), 0xF7}
+}
+
+// dataByte limits b to the range of a data byte (0-127): no byte above 127
+// may appear between the start and the end of a sysex message.
+func dataByte(b byte) byte {
+	if b > 0x7F {
+		return 0x7F
+	}
+	return b
 }
 
 func (g *GoTo) Parse(bt []byte) error {
@@ -249,7 +259,7 @@ type Identity struct {
 }
 
 func (i Identity) SysEx() []byte {
-	return []byte{0xF0, 0x7E, i.Channel, 0x06, 0x01, 0xF7}
+	return []byte{0xF0, 0x7E, dataByte(i.Channel), 0x06, 0x01, 0xF7}
 }
 
 func (i Identity) Parse(bt []byte) error {
